@@ -42,6 +42,9 @@ func (k c18Case) genuine(s c18Server) bool {
 	if s.Proto == "1.0-1.1" {
 		return false
 	}
+	if s.ClientAuth == "verify-if-given-foreign-ca" {
+		return false // the RA presents its certificate, this server verifies it against another CA and refuses the handshake
+	}
 	switch s.Identity {
 	case "ca1":
 		return true
@@ -69,6 +72,8 @@ func c18Why(k c18Case, s c18Server) string {
 		return "certificate valid only for another name/address"
 	case s.Proto == "1.0-1.1":
 		return "server offering only TLS 1.0-1.1"
+	case s.ClientAuth == "verify-if-given-foreign-ca":
+		return "server that verifies a presented client certificate against another CA: the RA must present its certificate and be refused, not be served anonymously"
 	}
 	return "?"
 }
@@ -91,8 +96,9 @@ func c18Run(c *ev.Ctx, k c18Case) {
 		case "1.3":
 			minV = tls.VersionTLS13
 		}
-		ca := map[string]tls.ClientAuthType{"require": tls.RequireAndVerifyClientCert, "request": tls.RequestClientCert, "ignore": tls.NoClientCert}[sv.ClientAuth]
-		cfg := c17PKI.serverTLS(sv.Identity, s.ip, minV, maxV, ca)
+		ca := map[string]tls.ClientAuthType{"require": tls.RequireAndVerifyClientCert, "request": tls.RequestClientCert, "ignore": tls.NoClientCert,
+			"request-foreign-ca": tls.RequestClientCert, "verify-if-given-foreign-ca": tls.VerifyClientCertIfGiven}[sv.ClientAuth]
+		cfg := c17PKI.serverTLS(sv.Identity, s.ip, minV, maxV, ca, strings.HasSuffix(sv.ClientAuth, "foreign-ca"))
 		s.mu.Lock()
 		s.tls = cfg
 		s.ans = answer{Kind: "ok", Key: c17CertLines[i%len(c17CertLines)]}
@@ -179,7 +185,7 @@ func c18Run(c *ev.Ctx, k c18Case) {
 }
 
 func checkC18(c *ev.Ctx) {
-	c.Rule("real crypki.NewSigner / Sign over real TLS against harness gRPC servers on 127.0.0.1..3:port whose TLS personality is swapped per configuration: CA bundle {one file, two files, one file with two certificates} x server identity {configured CA 1, CA 2, foreign CA, self-signed, expired, not yet valid, other name} x protocol range {1.0-1.1, 1.2, 1.3, 1.0-1.3} x client-certificate policy {require+verify, request, ignore} (252 single-endpoint configurations), plus endpoint lists of length 2..3 with every placement of one genuine server among impostors of 3 kinds incl. a configured-CA certificate that names the first endpoint (thorough: 7 kinds, two genuine servers); servers record handshakes, negotiated version, peer certificates and whether the RPC handler ran. non-trivial = every configuration; distinct by configuration")
+	c.Rule("real crypki.NewSigner / Sign over real TLS against harness gRPC servers on 127.0.0.1..3:port whose TLS personality is swapped per configuration: CA bundle {one file, two files, one file with two certificates} x server identity {configured CA 1, CA 2, foreign CA, self-signed, expired, not yet valid, other name} x protocol range {1.0-1.1, 1.2, 1.3, 1.0-1.3} x client-certificate policy {require+verify, request, ignore, request while naming only a foreign client CA, verify-if-given against a foreign client CA} (420 single-endpoint configurations), plus endpoint lists of length 2..3 with every placement of one genuine server among impostors of 3 kinds incl. a configured-CA certificate that names the first endpoint (thorough: 7 kinds, two genuine servers); servers record handshakes, negotiated version, peer certificates and whether the RPC handler ran. non-trivial = every configuration; distinct by configuration")
 	c.Assume("TLS and gRPC libraries run with their own goroutines and real time; outcomes are deterministic functions of the configuration; handshake internals are trusted")
 	c17PKI = newPKI()
 	defer os.RemoveAll(c17PKI.dir)
@@ -199,7 +205,7 @@ func checkC18(c *ev.Ctx) {
 	for _, b := range []string{"one", "two", "both"} {
 		for _, id := range []string{"ca1", "ca2", "foreign", "selfsigned", "expired", "notyet", "othername"} {
 			for _, pr := range []string{"1.2", "1.0-1.1", "1.3", "1.0-1.3"} {
-				for _, ca := range []string{"require", "request", "ignore"} {
+				for _, ca := range []string{"require", "request", "ignore", "request-foreign-ca", "verify-if-given-foreign-ca"} {
 					k := c18Case{Bundle: b, Servers: []c18Server{{id, pr, ca}}}
 					c18Run(c, k)
 					n++
